@@ -29,9 +29,13 @@ def schedules(k):
 
 NAME_PANELS = {
     2: [['v1', 'v1'], ['v1', 'v2'], ['x1', 'x1'], ['v1', 'x1'], ['n1', 'n1'], ['f3600', 'f3600'], ['v1', 'u'], ['f-7200', 'v1'], ['u0', 'u'],
-        ['f-86400', 'f86400'], ['f86399', 'f-86399'], ['f1', 'f-1']],
+        ['f-86400', 'f86400'], ['f86399', 'f-86399'], ['f1', 'f-1'],
+        # names with an embedded NUL byte ('_'): equal up to the NUL, or only one of them with a NUL
+        ['v1_a', 'v1_b'], ['v1_a', 'v1_a'], ['v1', 'v1_a'], ['x1_a', 'v1_a'],
+        # fixed-offset names that are accepted although not canonically spelled (minutes / seconds of 60..99)
+        ['F+00:60:00', 'f3600'], ['F-00:90:00', 'F-00:90:00'], ['F+23:59:60', 'v1'], ['F+00:00:99', 'F-23:60:00']],
     3: [['v1', 'v1', 'v1'], ['v1', 'v1', 'v2'], ['v1', 'v2', 'v1'], ['x1', 'v1', 'x1'], ['n1', 'n1', 'v1'], ['v1', 'f3600', 'u'], ['f3600', 'f3600', 'v1'],
-        ['x1', 'x1', 'x1'], ['v1', 'v2', 'v3'], ['u', 'u0', 'v1']],
+        ['x1', 'x1', 'x1'], ['v1', 'v2', 'v3'], ['u', 'u0', 'v1'], ['v1_a', 'v1_b', 'v1_a'], ['v1_a', 'v1', 'v1_a']],
     4: [['v1', 'v1', 'v1', 'v1'], ['v1', 'v1', 'v2', 'v2'], ['v1', 'x1', 'v1', 'x1'], ['v1', 'v2', 'f60', 'u'], ['n1', 'v1', 'n1', 'v1']],
 }
 
@@ -59,7 +63,7 @@ def parse_sched(line, out):
 
 
 def seq_ok(n):
-    return n[0] in 'vfu'
+    return n[0] in 'vfuF'
 
 
 def overlapping_first_loads(names, evs):
@@ -154,12 +158,30 @@ def run_sched_part(chk, pid, exe, scale):
     io = run_lines(exe, lines, timeout=600)
     # the same outcomes are required when a schedule is the very first thing the process does (the
     # zone map does not exist yet): a sample of schedules, each in a process of its own
-    fresh = [l for l in lines if l.split()[1] in ('v1,v2', 'v1,v1', 'v1,x1', 'v1,v2,v3', 'v1,v2,v1')]
+    fresh = [l for l in lines if l.split()[1] in ('v1,v2', 'v1,v1', 'v1,x1', 'v1,v2,v3', 'v1,v2,v1', 'v1_a,v1_b', 'v1_a,v1_b,v1_a')]
     fresh = fresh if scale != 'quick' else chk.rng.sample(fresh, min(len(fresh), 40))
     fo = [run_lines(exe, [l], timeout=60)[0] for l in fresh]
     fm = run_model(fresh)
     chk.count('schedules:fresh-process', len(fresh))
     lines = lines + fresh; mo = mo + fm; io = io + fo
+    if pid == 'C13':
+        # the first use of UTC by several threads at once, each time in a process of its own
+        n_first = 60 if scale == 'quick' else 600
+        fl = ['firstuse %d' % chk.rng.choice([2, 3, 4, 8])for _ in range(n_first)]
+        flo = [run_lines(exe, [l], timeout=60)[0] for l in fl]
+        for l, o in zip(fl, flo):
+            if o != 'firstuse bad=0':
+                chk.report('threads that use UTC for the first time at once (`%s` as the first thing the process does) do not all get the one UTC zone: %s' % (l, o),
+                           {'op': l, 'implementation': o, 'note': 'run in a fresh process'}, sig='firstuse')
+        chk.count('firstuse:fresh-process', n_first)
+        chk.cov['evaluations'] += n_first
+        # racing first uses of one fixed offset (never loaded before): all threads and a later load get one zone
+        rl = ['racefixed %d %d %d' % (kk, 120 if scale == 'quick' else 1500, 100 + 2000 * j) for j, kk in enumerate((2, 4, 8, 16))]
+        rlo = run_lines(exe, rl, timeout=600)
+        for l, o in zip(rl, rlo):
+            if o != 'racefixed bad=0':
+                chk.report('threads that ask for the same new fixed-offset zone at once do not all get one zone (`%s`): %s' % (l, o), {'op': l, 'implementation': o}, sig='racefixed')
+        chk.count('racefixed:trials', sum(int(l.split()[2]) for l in rl))
     chk.cov['evaluations'] += len(lines); chk.cov['traces_validated_against_impl'] += len(lines)
     chk.count('schedules', len(lines))
     good = 0
@@ -220,6 +242,17 @@ def run_C20(chk):
     if exe is None or not getattr(chk, 'driver_ok', False):
         return chk.finish()
     good = run_sched_part(chk, 'C20', exe, scale)
+    # names that are already loaded (or have already failed) are loaded again by several threads while the zone map's
+    # mutex is kept busy: the factory must not see any of them again
+    env = dict(os.environ); env.update({'TZDIR': os.path.join(REPO, 'testdata/zoneinfo')}); env.update(SAN_ENV)
+    for r, (kk, iters) in enumerate(((4, 200), (8, 200), (16, 100)) if scale == 'quick' else ((4, 2000), (8, 2000), (16, 1000), (64, 200))):
+        line = 'stress %d %d %d' % (kk, iters, chk.seed * 100 + r)
+        p = subprocess.run([exe], input=(line + '\n').encode(), stdout=subprocess.PIPE, stderr=subprocess.PIPE, env=env, timeout=3000)
+        out = p.stdout.decode().strip()
+        chk.cov['evaluations'] += kk * iters
+        if 'refactory=' in out or not out.startswith('stress threads='):
+            chk.report('loading names again that are already in the zone map reached the factory under contention: %s' % out, {'op': line, 'implementation': out}, sig='stress refactory')
+        else: good += 1
     chk.cov['distinct_nontrivial'] = good
     chk.cov['rule'] = ('the schedules of C13 (every order of start/release events of k<=3 threads, k=4 in thorough, each thread held inside the factory): the factory log of the implementation (thread, name, concurrency '
                        'high-water mark) compared with the model and with the documented contract: invoked on the loading thread, never for UTC/fixed-offset names, at most once per name and never concurrently; '
@@ -255,6 +288,17 @@ def leap_file():
     return hdr + struct.pack('>iBB', 0, 0, 0) + b'UTC\0' + struct.pack('>ii', 78796800, 1)
 
 
+def leap_file_slim():
+    # version 2, as `zic -b slim -L leapseconds` writes "right/" zones: the 32-bit header is a stub without
+    # leap seconds, the count is in the 64-bit header only
+    import struct
+    h1 = b'TZif2' + b'\0' * 15 + struct.pack('>6i', 0, 0, 0, 0, 1, 1)
+    b1 = struct.pack('>iBB', 0, 0, 0) + b'\0'
+    h2 = b'TZif2' + b'\0' * 15 + struct.pack('>6i', 0, 0, 1, 0, 1, 4)
+    b2 = struct.pack('>iBB', 3600, 0, 0) + b'CET\0' + struct.pack('>qi', 78796800, 1)
+    return h1 + b1 + h2 + b2 + b'\nCET-1\n'
+
+
 def run_C19(chk):
     chk.prepare_model('Cctz.Properties.C19', THEOREMS['C19'])
     exe = chk.harness('san')
@@ -277,6 +321,7 @@ def run_C19(chk):
     put(os.path.join(zdir, 'trunc-footer-all'), ny[:ny.rfind(b'\n', 0, len(ny) - 1) + 1])   # only the newline that opens the footer
     put(os.path.join(zdir, 'trunc-footer-mid'), ny[:-9])
     put(os.path.join(zdir, 'leap'), leap_file())
+    put(os.path.join(zdir, 'leap-slim'), leap_file_slim())
     put(os.path.join(zdir, 'empty'), b'')
     put(os.path.join(zdir, 'localtime'), shipped['Asia/Kathmandu'])
     put(os.path.join(zdir, 'X'), shipped['Australia/Lord_Howe'])
@@ -297,7 +342,7 @@ def run_C19(chk):
     tzs = [None, b'', b'X', b':X', b'localtime', b':localtime', b'No/Such', b'::X', b'America/New_York']
     lts = [None, os.path.join(root, 'lt').encode(), os.path.join(root, 'nope').encode()]
     names = [b'America/New_York', b'Lisbon', os.path.join(root, 'abs/Kolkata').encode(), b'file:Lisbon', b'file:' + os.path.join(root, 'abs/Kolkata').encode(),
-             b'', b'adir', b'truncated', b'trunc-footer-1', b'trunc-footer-all', b'trunc-footer-mid', b'leap', b'empty', b':Lisbon', b'UTC', b'UTC0', b'Fixed/UTC+05:30:00', b'Fixed/UTC+25:00:00', b'No/Such', b'file:', b'../zi/Lisbon',
+             b'', b'adir', b'truncated', b'trunc-footer-1', b'trunc-footer-all', b'trunc-footer-mid', b'leap', b'leap-slim', b'empty', b':Lisbon', b'UTC', b'UTC0', b'Fixed/UTC+05:30:00', b'Fixed/UTC+25:00:00', b'Fixed/UTC+00:60:00', b'Fixed/UTC+01:00:0\x00', b'Fixed/UTC+0\x00:00:00', b'Fixed/UTC-00:90:00', b'Fixed/UTC+23:59:60', b'Fixed/UTC-23:59:61', b'Fixed/UTC+00:00:99', b'No/Such', b'file:', b'../zi/Lisbon',
              b'America/New_York\x00junk']
     lines = ['fsfile %s %s' % (hx(p), hx(d)) for p, d in files.items()]
     meta = [None] * len(lines)
@@ -307,6 +352,17 @@ def run_C19(chk):
         for tz in tzs:
             for lt in lts:
                 lines.append('resolve %s %s %s local -' % (opt(td), opt(tz), opt(lt))); meta.append(('local', td, tz, lt, None))
+    # the same resolution when other names - in particular other spellings of the same file, and fixed-offset
+    # names - are already in the zone map ("keep": the map is not cleared before the load)
+    zd = zdir.encode()
+    absk = os.path.join(root, 'abs/Kolkata').encode()
+    for first, second in ((b'Lisbon', b'file:Lisbon'), (b'file:Lisbon', b'Lisbon'), (absk, b'file:' + absk), (b'file:' + absk, absk),
+                          (b'Fixed/UTC+05:30:00', b'file:Fixed/UTC+05:30:00'), (b'UTC', b'file:UTC'), (b'Lisbon', b':Lisbon'), (b'Lisbon', b'Lisbon\x00junk'),
+                          (b'America/New_York', b'file:America/New_York'), (b'No/Such', b'file:No/Such'), (b'leap-slim', b'file:leap-slim'), (b'X', b'file:X')):
+        lines.append('resolve %s ~ ~ load %s' % (opt(zd), hx(first))); meta.append(('load', zd, None, None, first))
+        lines.append('resolve %s ~ ~ keep %s' % (opt(zd), hx(second))); meta.append(('load', zd, None, None, second))
+        lines.append('resolve %s ~ ~ keep %s' % (opt(zd), hx(first))); meta.append(('load', zd, None, None, first))
+    lines.append('defaultzone'); meta.append(('default', None, None, None, None))
     try:
         mo = run_model(lines)
         io = run_lines(exe, lines)
@@ -322,6 +378,12 @@ def run_C19(chk):
             if mism <= 10: chk.broken.append('correspondence: `%s` model=`%s` implementation=`%s`' % (l[:120], a, b))
         if m is None: continue
         kind, td, tz, lt, nm = m
+        if kind == 'default':
+            if b != 'default bad=0':
+                chk.report('a default-constructed time_zone, a failed load, "UTC0", fixed_time_zone(0), the local fallback and utc_time_zone() are not all one zone under == and != : %s' % b,
+                           {'op': l, 'implementation': b}, sig='defaultzone')
+            else: good += 1
+            continue
         # the documented resolution, written independently
         if kind == 'local':
             zone = b':localtime' if tz is None else cstr(tz)
@@ -345,7 +407,7 @@ def run_C19(chk):
             data = files.get(path)
             f = fingerprint(data) if data is not None else None
             # the independent reader accepts leap-second files and truncated ones differently: cctz must reject both
-            if data is not None and (data == leap_file() or len(data) < 44 or b'trunc' in os.path.basename(path)): f = None
+            if data is not None and (data in (leap_file(), leap_file_slim()) or len(data) < 44 or b'trunc' in os.path.basename(path)): f = None
             if f is None: want_ok, want_name, want_fp = False, b'UTC', '0:555443 0:555443'
             else: want_ok, want_name, want_fp = True, name, f
         want = '%s %s %s' % (('L' if kind == 'local' else ('1' if want_ok else '0')), hx(want_name), want_fp)
